@@ -32,6 +32,8 @@ import (
 //	rst             all open streams are reset
 //	fc              follower process stops
 //	fs:<mode>       follower (re)starts: keep | wipe (directory deleted) | back<j> (directory restored to the state j messages ago)
+//	fsw             follower destroys its log/partition object and re-creates it empty WITHOUT breaking the replica stream
+//	                (WAL gc of a drained log, WAL drop + re-create): the handler of an open stream stays bound to the closed partition
 //	lr:<mode>       leader restarts: keep | back<j> (whole directory restored to the state j messages ago) |
 //	                backcg<j> (log restored, consumer group meta keeps its newer content)
 //	off | on        follower offline / online notification through the state manager
@@ -65,7 +67,7 @@ func (e event) String() string {
 
 func parseEvent(tok string) (event, error) {
 	switch {
-	case tok == "s" || tok == "rst" || tok == "fc" || tok == "off" || tok == "on" || tok == "gc" || tok == "land":
+	case tok == "s" || tok == "rst" || tok == "fc" || tok == "off" || tok == "on" || tok == "gc" || tok == "land" || tok == "fsw":
 		return event{Kind: tok}, nil
 	case strings.HasPrefix(tok, "s:"):
 		return event{Kind: "s", Fault: tok[2:]}, nil
@@ -370,6 +372,23 @@ func (d *driver) exec(e event) {
 		}
 	case "fs":
 		d.doFollowerStart(e)
+	case "fsw":
+		if d.w.fUp {
+			stale := d.w.tr.openStreams()
+			if err := d.w.swapFollowerPartition(); err != nil {
+				d.res.Fatal = "harness: swap follower partition: " + err.Error()
+				return
+			}
+			d.count("fault.follower_log_recreated_behind_stream", 1)
+			if stale > 0 {
+				d.count("fault.follower_log_recreated_behind_stream.open_stream_left_on_closed_partition", 1)
+			}
+			if d.lastF >= 0 {
+				d.ackArmed = false // the follower lost its log; the leader's ack is ahead until the next handshake
+			}
+			d.lineF = map[int64]int{}
+			d.faultSeen, d.hsAfterFault = true, false
+		}
 	case "lr":
 		d.doLeaderRestart(e)
 	case "off":
@@ -860,6 +879,31 @@ func (d *driver) afterReplica(mid obs) {
 	if s.Delivered && s.Idx != mid.F+1 {
 		d.count("step.offered_index_not_follower_next", 1)
 	}
+	// an answer the leader takes as acknowledgement of the offered index requires that the follower has appended
+	// exactly that message (independent of the ack-vs-appended invariant, which is suspended after a follower log loss)
+	if s.Delivered && s.GotResp && s.RespAck == s.RespIdx && d.w.fUp && d.w.lCG.AcknowledgedSeq() >= s.Idx {
+		d.count("oracle.accepted_answers_checked", 1)
+		fq := d.w.fReal.Queue()
+		fb, ferr := fq.Get(s.Idx)
+		lb, lerr := d.w.lLog.Queue().Get(s.Idx)
+		bad := ""
+		switch {
+		case fq.AppendedSeq() < s.Idx:
+			bad = fmt.Sprintf("the follower's log ends at %d", fq.AppendedSeq())
+		case ferr == nil && lerr == nil && !bytes.Equal(fb, lb):
+			bad = fmt.Sprintf("the follower holds %s there, the leader offered %s", head(fb), head(lb))
+		}
+		if bad != "" {
+			d.upstreamViolated = true
+			d.ackViolationActive = true // reported here with its cause; the general ack oracle would only repeat it
+			kind := "answer-without-error"
+			if s.RespErr != "" {
+				kind = "answer-carries-error"
+			}
+			d.violate("C08/ack-without-append/"+kind, "the follower answered %d to the offered index %d (err=%q), the leader acknowledged %d, but %s",
+				s.RespAck, s.Idx, s.RespErr, s.Idx, bad)
+		}
+	}
 }
 
 // ---------------------------------------------------------------------------------------------
@@ -1180,6 +1224,18 @@ func genSequence(rnd *rand.Rand, idx int, maxLen int) []event {
 		}
 	}
 	down, off := false, false
+	if directed == 3 && rnd.Intn(3) == 0 {
+		// the follower re-creates its log behind an established, healthy stream; the leader goes on appending
+		n0 := rnd.Intn(4)
+		evs = append(evs, event{Kind: "a", N: n0 + rnd.Intn(2)}, event{Kind: "s"})
+		for i := 0; i < n0; i++ {
+			evs = append(evs, event{Kind: "s"})
+		}
+		if rnd.Intn(2) == 0 {
+			evs = append(evs, event{Kind: "gc"})
+		}
+		evs = append(evs, event{Kind: "fsw"}, event{Kind: "a", N: 1 + rnd.Intn(3)}, event{Kind: "s"}, event{Kind: "s"})
+	}
 	if directed == 2 && rnd.Intn(3) == 0 {
 		// the follower flaps while the leader is about to handshake
 		n0 := 1 + rnd.Intn(3)
@@ -1206,11 +1262,13 @@ func genSequence(rnd *rand.Rand, idx int, maxLen int) []event {
 			evs = append(evs, event{Kind: "s", Fault: stepFaults[rnd.Intn(len(stepFaults))]})
 		case x < 73:
 			evs = append(evs, event{Kind: "rst"})
-		case x < 76:
+		case x < 75:
 			if !down {
 				evs = append(evs, event{Kind: "fc"})
 				down = true
 			}
+		case x < 77:
+			evs = append(evs, event{Kind: "fsw"})
 		case x < 82:
 			evs = append(evs, genFollowerStart(rnd))
 			down = false
